@@ -194,3 +194,22 @@ def total_derivative_check(S, ref, leaves, atoms, label, fd=True):
                 got = got + g[idx] * dl
         ok &= S.prove_eq(np.array([got], dtype=object), np.array([want], dtype=object), "%s d/d%s" % (label, name))
     return ok
+
+
+@contextlib.contextmanager
+def pinverse_by_contract(S=None):
+    """linear_operator's stable_pinverse (Householder QR + triangular solve) is replaced by its mathematical contract for a
+    square non-singular argument: the inverse (encoded by the engine as Gaussian elimination). QR itself has no
+    sign-canonical closed form; the substitution is listed as an assumption of the scenarios that use it."""
+    import linear_operator.operators._linear_operator as LO
+    orig = LO.stable_pinverse
+
+    def contract(A):
+        if A.shape[-1] != A.shape[-2]:
+            return orig(A)
+        return torch.linalg.inv(A)
+    LO.stable_pinverse = contract
+    try:
+        yield
+    finally:
+        LO.stable_pinverse = orig
